@@ -44,6 +44,7 @@ type Prog struct {
 	unbound       []unboundSpec
 	implCache     map[string][]implSpec
 	replayPin     *replayPin
+	oldNames      map[string]fnNames
 }
 
 func isRepoPath(p string) bool {
@@ -170,6 +171,7 @@ func loadProg(repo string, assumedDir string) (*Prog, error) {
 	if err := P.resolveRefines(); err != nil {
 		return nil, err
 	}
+	P.loadNames(filepath.Join(filepath.Dir(assumedDir), "tools", "names.json"))
 	return P, nil
 }
 
